@@ -567,7 +567,8 @@ func (g *rawGen) bundle() (map[string]string, []string) {
 	if g.on() {
 		// the less common entity parts
 		m.WriteString("message ThingRefs {\n  option (j5.ext.v1.psm) = {entity_name: \"thing\" entity_part: ENTITY_PART_REFERENCES};\n  string other_id = 1;\n}\n\n")
-		m.WriteString("message ThingDerived {\n  option (j5.ext.v1.psm) = {entity_name: \"thing\" entity_part: ENTITY_PART_DERIVED};\n  int64 total = 1;\n}\n\n")
+		// ... one of them also a member of any fields: both markers on one object
+		m.WriteString("message ThingDerived {\n  option (j5.ext.v1.psm) = {entity_name: \"thing\" entity_part: ENTITY_PART_DERIVED};\n  option (j5.ext.v1.message).object = {any_member: [\"payload\"]};\n  int64 total = 1;\n}\n\n")
 	}
 	if g.on() {
 		// an object that flattens the object of the same name of another package
@@ -583,6 +584,9 @@ func (g *rawGen) bundle() (map[string]string, []string) {
 	ent := g.on()
 	if ent {
 		m.WriteString("  option (j5.ext.v1.psm) = {entity_name: \"thing\" entity_part: ENTITY_PART_KEYS};\n")
+		if g.on() {
+			m.WriteString("  option (j5.ext.v1.message).object = {any_member: [\"other\", \"keys\"]};\n")
+		}
 	}
 	// a primary key is usually, but need not be, marked required as well
 	if g.on() {
